@@ -93,6 +93,9 @@ func compactDecode(data []byte) (uint64, int) {
 		for i := 0; i < 8; i++ {
 			v |= uint64(data[1+i]) << (8 * i)
 		}
+		if v < uint64(1)<<56 {
+			return 0, 0 // the 9-byte form is only the encoding of v >= 2^56
+		}
 		return v, 9
 	}
 
